@@ -11,6 +11,15 @@ fn main() {
     }
     clvm_verif::outcome::quiet_panics();
     let mut ctx = Ctx::from_args(&args);
+    // hard stop: an orphaned or runaway shard must not live forever
+    let hard = (ctx.budget_s * 6.0 + 900.0) as u64;
+    if ctx.only_case.is_none() && !cfg!(miri) {
+        std::thread::spawn(move || {
+            std::thread::sleep(std::time::Duration::from_secs(hard));
+            eprintln!("hard wall-clock stop after {hard}s");
+            std::process::exit(4);
+        });
+    }
     clvm_verif::mon::dispatch(&mut ctx);
     std::process::exit(ctx.finish());
 }
